@@ -16,6 +16,7 @@ import (
 	"bytes"
 	"context"
 	"fmt"
+	"io"
 	"os"
 	"os/exec"
 	"path/filepath"
@@ -24,6 +25,7 @@ import (
 	"strings"
 	"time"
 
+	"verifharness/fsck"
 	"verifharness/hist"
 
 	"github.com/ipld/go-storethehash/store"
@@ -216,6 +218,34 @@ func same(a, b map[string]val, keys [][]byte, what string) {
 	}
 }
 
+// iterCheck: whole-store iteration yields every present key exactly once with its value and nothing else.
+func iterCheck(s *store.Store, want map[string]val, what string) {
+	it := s.NewIterator()
+	seen := map[string]bool{}
+	for {
+		k, v, err := it.Next()
+		if err == io.EOF {
+			break
+		}
+		if err != nil {
+			bad("%s: %v", what, err)
+		}
+		d := dg(k)
+		if seen[d] {
+			bad("%s: key %x yielded twice", what, k)
+		}
+		seen[d] = true
+		if w, ok := want[d]; ok && (!w.present || w.v != string(v)) {
+			bad("%s: key %x yielded with %q, Get says present=%v %q", what, k, v, w.present, w.v)
+		}
+	}
+	for d, w := range want {
+		if w.present && !seen[d] {
+			bad("%s: a present key (digest %x) was not yielded", what, d)
+		}
+	}
+}
+
 func copyDir(src string) string {
 	dst, _ := os.MkdirTemp("", "crash2")
 	if err := exec.Command("cp", "-r", src+"/.", dst).Run(); err != nil {
@@ -227,7 +257,27 @@ func copyDir(src string) string {
 func recoverCheck(h *hist.History, dir, acklog string) {
 	acked, closedAt, opened := readAck(acklog)
 	al, keys := allowed(h, acked, closedAt)
+	// what the crash left of the last primary file (Open cuts an incomplete record off its end)
+	lastPrimary, lastBytes := "", []byte(nil)
+	for n := 0; ; n++ {
+		p := filepath.Join(dir, fmt.Sprintf("d.%d", n))
+		if _, e := os.Stat(p); e != nil {
+			if lastPrimary != "" || n > 4096 {
+				break
+			}
+			continue
+		}
+		lastPrimary = p
+	}
+	if lastPrimary != "" {
+		lastBytes, _ = os.ReadFile(lastPrimary)
+	}
 	s, err := open(h, dir, h.Cfg.Bits)
+	if err == nil && lastPrimary != "" && len(lastBytes) <= 1024 {
+		if fi, e := os.Stat(lastPrimary); e == nil {
+			fmt.Printf("TRIM %x %d\n", lastBytes, fi.Size())
+		}
+	}
 	if err != nil {
 		if !opened {
 			// died inside the very first OpenStore of an empty directory: nothing was ever stored; a failing open
@@ -246,6 +296,17 @@ func recoverCheck(h *hist.History, dir, acklog string) {
 			bad("after recovery (ops acknowledged: %d): Get(%x) = %v %q, allowed %v", acked, k, got[dg(k)].present, got[dg(k)].v, opts)
 		}
 	}
+	// C07: the files the recovery left agree with each other and with the rebuilt bucket table
+	fsckNow := func(st *store.Store, d, when string) {
+		tbl := st.Index().VerifBuckets()
+		t := make([]uint64, len(tbl))
+		for i, p := range tbl {
+			t[i] = uint64(p)
+		}
+		if msg := fsck.Check(d, fsck.Config{Bits: h.Cfg.Bits, Imax: h.Cfg.Imax, Pmax: h.Cfg.Pmax}, t); msg != "" {
+			bad("fsck %s: %s", when, msg)
+		}
+	}
 	// second un-clean restart: more writes and a flush, then the process dies again without Close
 	extra := []byte{0x12, 6, 7, 7, 7, 0xee, 0xee, 0xee}
 	if err := s.Put(extra, []byte("second-restart")); err != nil && !h.Cfg.Imm {
@@ -254,12 +315,45 @@ func recoverCheck(h *hist.History, dir, acklog string) {
 	if err := s.Flush(); err != nil {
 		bad("Flush after recovery: %v", err)
 	}
+	// the recovered store is used on: further records in other buckets (enough to roll small primary files over, so that the file the
+	// crash interrupted becomes a non-current file the collector visits), overwrites / removals that leave garbage behind, a flush
+	for i := 0; i < 10; i++ {
+		k := []byte{0x12, 6, byte(0x20 + i), 7, 7, 0xe0, byte(i), 0xee}
+		v := bytes.Repeat([]byte{byte(0x81 + i)}, 14)
+		if err := s.Put(k, v); err != nil {
+			bad("Put after recovery: %v", err)
+		}
+		keys = append(keys, k)
+		got[dg(k)] = val{true, string(v)}
+	}
+	if err := s.Flush(); err != nil {
+		bad("Flush after recovery: %v", err)
+	}
+	for i := 0; i < 2; i++ {
+		k := keys[len(keys)-10+i]
+		if h.Cfg.Imm {
+			if _, err := s.Remove(k); err != nil {
+				bad("Remove after recovery: %v", err)
+			}
+			got[dg(k)] = val{}
+		} else {
+			v := bytes.Repeat([]byte{byte(0x71 + i)}, 9)
+			if err := s.Put(k, v); err != nil {
+				bad("Put after recovery: %v", err)
+			}
+			got[dg(k)] = val{true, string(v)}
+		}
+	}
+	if err := s.Flush(); err != nil {
+		bad("Flush after recovery: %v", err)
+	}
+	same(got, readAll(s, keys, "after further writes on the recovered store"), keys, "further writes on the recovered store")
 	img := copyDir(dir)
 	defer os.RemoveAll(img)
 	// the recovered store keeps behaving like a map through GC cycles
 	mp := s.Primary().(*mhprimary.MultihashPrimary)
 	for c := 0; c < 2; c++ {
-		if _, err := mp.GC(context.Background(), 50); err != nil {
+		if _, err := mp.GC(context.Background(), int64(50+40*c)); err != nil {
 			bad("primary GC after recovery: %v", err)
 		}
 		if _, _, err := s.Index().VerifGC(context.Background(), c == 0); err != nil && !strings.Contains(err.Error(), "cannot stat index file") {
@@ -271,6 +365,8 @@ func recoverCheck(h *hist.History, dir, acklog string) {
 		bad("Flush after GC: %v", err)
 	}
 	same(got, readAll(s, keys, "after flush"), keys, "flush on the recovered store")
+	iterCheck(s, got, "iteration over the recovered store")
+	fsckNow(s, dir, "on the recovered store after further writes, two GC cycles and a flush")
 	if err := s.Close(); err != nil {
 		bad("Close of the recovered store: %v", err)
 	}
@@ -288,6 +384,8 @@ func recoverCheck(h *hist.History, dir, acklog string) {
 		bad("second restart: open fails: %v", err)
 	}
 	same(got, readAll(s3, keys, "after the second restart"), keys, "second un-clean restart")
+	delete(got, "") // (no-op; keeps the map type obvious)
+	fsckNow(s3, img, "after the second restart")
 	if v, ok, err := s3.Get(extra); err != nil || !ok || !bytes.Equal(v, []byte("second-restart")) {
 		bad("second restart: a key flushed after the first recovery reads found=%v err=%v val=%q", ok, err, v)
 	}
